@@ -42,7 +42,7 @@ def main():
         res['checks'] = {}
         for p in props:
             t = time.time()
-            rc, out = sh(['timeout', '3000', os.path.join('/verif', 'check'), p, '--tier', tier])
+            rc, out = sh(['timeout', '3000', os.path.join('/verif', 'check'), p, '--tier', tier], env=dict(os.environ, VERIF_EVIDENCE_DIR='/verif/.work/seeded_evidence'))
             lines = [l for l in out.split('\n') if l.startswith('VIOLATION') or l.startswith(p + ' tier')]
             res['checks'][p] = {'exit': rc, 'lines': lines[:5], 'wall_s': round(time.time() - t, 1)}
             reps = [l.split('replay=')[1].split()[0] for l in lines if 'replay=' in l]
